@@ -377,6 +377,7 @@ class Check:
         if race:
             cmd.append("-race")
         cmd.append("./" + os.path.relpath(os.path.join(REPO, pkg), moddir))
+        cmd = netns_wrap(cmd)
         rc, o, wall = sh(cmd, cwd=moddir, env=e, timeout=timeout)
         if rc != 0:
             if "[build failed]" in o or "[setup failed]" in o:
@@ -555,6 +556,29 @@ class Check:
         if not os.environ.get("VERIF_KEEP"):
             shutil.rmtree(self.scratch, ignore_errors=True)
         return 2
+
+
+_NETNS = None
+
+
+def netns_wrap(cmd):
+    """Run cmd in a private network namespace with only a loopback interface, when the
+    system allows it: the servers under test listen on 127.0.0.1:0 with SO_REUSEPORT,
+    so concurrent jobs on the same machine (other checks, the repository's own tests)
+    can otherwise collide with or even share their ports.  VERIF_NETNS=0 disables it."""
+    global _NETNS
+    if os.environ.get("VERIF_NETNS", "1") == "0":
+        return cmd
+    if _NETNS is None:
+        try:
+            p = subprocess.run(["unshare", "-n", "sh", "-c", "ip link set lo up && ip addr show lo | grep -q 127.0.0.1"],
+                               stdout=subprocess.DEVNULL, stderr=subprocess.DEVNULL, timeout=20)
+            _NETNS = p.returncode == 0
+        except Exception:
+            _NETNS = False
+    if not _NETNS:
+        return cmd
+    return ["unshare", "-n", "sh", "-c", 'ip link set lo up && exec "$@"', "sh"] + list(cmd)
 
 
 def rewrite_time_calls(text):
